@@ -79,4 +79,80 @@ def semDesc (W : Pol.World) : Desc → Bool
   | .bare ms | .wsh ms | .sh ms | .shWsh ms => sem W ms
   | .tr k leaves => W.canSign k || leaves.any (sem W)
 
+/-! ## What the lifter documents about its refusals (judged by `J liftrefusal`)
+
+`lift` refuses (a) scripts that mention a raw key hash ("Cannot lift raw descriptors") and
+(b) scripts with a spending path that needs a height-based and a time-based lock of the same
+kind ("a combination of timelocks").  A *spending path* chooses one branch at every `or`, both at
+every `and`, exactly `k` children at a `thresh`; its *lock signature* says which of the four lock
+kinds occur on it.  Signatures are 4-bit masks; sets of signatures are duplicate-free lists, so
+wide thresholds stay polynomial. -/
+
+mutual
+/-- the script mentions a bare key hash -/
+def mentionsRaw : Ms → Bool
+  | .rawPkH _ => true
+  | .alt x | .swap x | .check x | .dupIf x | .verify x | .nonZero x | .zeroNotEqual x => mentionsRaw x
+  | .andV l r | .andB l r | .orB l r | .orD l r | .orC l r | .orI l r => mentionsRaw l || mentionsRaw r
+  | .andOr a b c => mentionsRaw a || mentionsRaw b || mentionsRaw c
+  | .thresh _ xs => mentionsRawL xs
+  | _ => false
+def mentionsRawL : MsList → Bool
+  | .nil => false
+  | .cons x xs => mentionsRaw x || mentionsRawL xs
+end
+
+def SIG_OLDER_HEIGHT : Nat := 1
+def SIG_OLDER_TIME : Nat := 2
+def SIG_AFTER_HEIGHT : Nat := 4
+def SIG_AFTER_TIME : Nat := 8
+
+/-- a path with this signature can never be used: it needs both units of one lock kind -/
+def mixedSig (m : Nat) : Bool :=
+  (m % 2 == 1 && m / 2 % 2 == 1) || (m / 4 % 2 == 1 && m / 8 % 2 == 1)
+
+/-- signatures of paths that use a path of the first AND a path of the second -/
+def crossSigs (a b : List Nat) : List Nat :=
+  (a.flatMap fun x => b.map fun y => x ||| y).eraseDups
+
+def unionSigs (a b : List Nat) : List Nat := (a ++ b).eraseDups
+
+/-- one more child `s` for the table "signatures reachable by choosing exactly j of the children
+seen so far", `j = 0 … k` (`prev` = the entry for `j - 1` before this child) -/
+def chooseStep (s : List Nat) : List Nat → List (List Nat) → List (List Nat)
+  | _, [] => []
+  | prev, cur :: rest => unionSigs cur (crossSigs prev s) :: chooseStep s cur rest
+
+mutual
+/-- lock signatures of the spending paths.  `viaUnsat = true`: purely structural paths (a `0`
+can be "chosen"); `false`: only paths that some assets can satisfy. -/
+def lockSigs (viaUnsat : Bool) : Ms → List Nat
+  | .tru => [0]
+  | .fls => if viaUnsat then [0] else []
+  | .pkK _ | .pkH _ | .rawPkH _ | .hash _ _ => [0]
+  | .after n => [if Pol.absIsHeight n then SIG_AFTER_HEIGHT else SIG_AFTER_TIME]
+  | .older n => [if Pol.relIsTime n then SIG_OLDER_TIME else SIG_OLDER_HEIGHT]
+  | .alt x | .swap x | .check x | .dupIf x | .verify x | .nonZero x | .zeroNotEqual x =>
+    lockSigs viaUnsat x
+  | .andV x y | .andB x y => crossSigs (lockSigs viaUnsat x) (lockSigs viaUnsat y)
+  | .andOr x y z =>
+    unionSigs (crossSigs (lockSigs viaUnsat x) (lockSigs viaUnsat y)) (lockSigs viaUnsat z)
+  | .orB x z | .orD x z | .orC x z | .orI x z => unionSigs (lockSigs viaUnsat x) (lockSigs viaUnsat z)
+  | .thresh k xs =>
+    -- table for j = 0 … k, start: choosing 0 of no children
+    ((chooseSigs viaUnsat xs ([0] :: List.replicate k [])).getLast?).getD []
+  | .multi k ks | .sortedMulti k ks | .multiA k ks | .sortedMultiA k ks =>
+    if k ≤ ks.length then [0] else []
+def chooseSigs (viaUnsat : Bool) : MsList → List (List Nat) → List (List Nat)
+  | .nil, table => table
+  | .cons x xs, table =>
+    chooseSigs viaUnsat xs
+      (match table with
+       | [] => []
+       | t0 :: rest => t0 :: chooseStep (lockSigs viaUnsat x) t0 rest)
+end
+
+/-- some spending path mixes height and time -/
+def hasMixedPath (viaUnsat : Bool) (ms : Ms) : Bool := (lockSigs viaUnsat ms).any mixedSig
+
 end MsVerif.MsSem
